@@ -132,11 +132,13 @@ class SolverRecorder:
                 before = problem.sequence
                 rec.suspended += 1
                 rec.rng.suspended = True
+                span = len(rec.heur)
+                rec.rng.events.append(("heur", span))
                 try:
                     orig(self, problem)
-                    rec.heur[(i, before)] = (True, problem.sequence)
+                    rec.heur[(i, before, span)] = (True, problem.sequence)
                 except NoSolutionError:
-                    rec.heur[(i, before)] = (False, before)
+                    rec.heur[(i, before, span)] = (False, before)
                     raise
                 finally:
                     rec.suspended -= 1
@@ -175,7 +177,8 @@ class SolverRecorder:
             at.append("(%d%%nat, mkAttrs %s %s %s %s %s %s %s)" % (
                 i, cbool(a["enforced"]), cz(a["priority"]), copt(best, cq), cq(Fraction(repr(float(a["boost"])))),
                 cbool(a["passive"]), cbool(a["accepts_rh"]), cbool(a["heuristic"])))
-        he = clist(["(%d%%nat, %s, (%s, %s))" % (i, cseq(s), cbool(ok), cseq(t)) for (i, s), (ok, t) in self.heur.items()])
+        he = clist(["(%d%%nat, %s, %s, (%s, %s))" % (i, cseq(s), cz(sp), cbool(ok), cseq(t))
+                    for (i, s, sp), (ok, t) in self.heur.items()])
         return "(mkTables %s %s %s %s %s)" % (ev, clist(loc), re_, clist(at), he)
 
 
